@@ -141,7 +141,7 @@ impl CheckDef for Comp {
 }
 
 pub fn run(ctx: &mut Ctx) {
-    ctx.rule("COMP: sequences (1..N) of sample(rtt)/on_rto_timeout() on RttEstimator vs an integer-ns RFC 6298 model; rtt log-uniform 0 ns..4.9 h + boundary values; non-trivial = >=2 samples and >=1 timeout followed by a sample; distinct by hash of (event kind, RTO in ms) sequence");
+    ctx.rule("COMP: sequences (1..N) of sample(rtt)/on_rto_timeout() on RttEstimator vs an integer-ns RFC 6298 model; rtt log-uniform 0 ns..4.9 h + boundary values + steady-path runs of 4..90 nearly equal samples (0..70 s) in half of which timeouts strike in the middle; non-trivial = >=2 samples and >=1 timeout followed by a sample; distinct by hash of (event kind, RTO in ms) sequence");
     ctx.assume("RFC 6298 constants as documented in rtte.rs: alpha 1/8, beta 1/4, K 4, G 10 ms, clamp 200 ms..60 s, initial 300 ms");
     ctx.assume("tolerance 128 ns for integer-division order");
     ctx.replay_corpus::<Comp>();
